@@ -50,6 +50,7 @@ package core
 //@   props C01 C09
 //@   flags pure
 //@   requires mwf(l)
+//@   ensures[witness] !result ==> (exists i int :: 0 <= i && i < l.count && !mqm(l, i).Done)
 //@   ensures[alldone] result == (forall i int :: 0 <= i && i < l.count ==> mqm(l, i).Done)
 //@   loop 0
 //@     invariant exists k int :: 0 <= k && k <= l.count && cur == mq(l, k) && qnth_unfold(heap(Msg.prev), l.head, k + 1)
